@@ -113,3 +113,33 @@ def truth_tested_names(fnode):
                 if isinstance(o, ast.Name):
                     out.setdefault(o.id, o)
     return out
+
+
+def with_semantics(R, P, shape_fn, verdict, what, fi, rule="SEMANTICS"):
+    """run a shape rule on a scratch result; ``verdict`` = (True | False | None, detail) from a bounded semantic comparison (folding of
+    the pure fragment).  True: what the shape rule could not recognise is an undecided instance, not a violation.  False: the semantic
+    mismatch is the finding (and the shape findings stay).  None: the shape rule decides alone."""
+    from ..report import Result
+    T = Result(P, "")
+    shape_fn(T)
+    ok, detail = verdict
+    for o in T.obligations:
+        if o["status"] == "discharged":
+            R.ok(o["rule"], o["instance"], o["where"], nontrivial=o["nontrivial"])
+    for u in T.unproven:
+        R.unknown(u["rule"], u["instance"], u["where"], u["why"])
+    R.floors.extend(T.floors)
+    for t in T.trusted:
+        R.trust(t)
+    if ok is True:
+        R.ok(rule, "%s: %s" % (what, detail), fi.key if fi is not None else "")
+        for f in T.findings:
+            R.unknown(f.rule, f.construct, "%s:%s %s" % (f.file, f.line, f.function),
+                      "shape not recognised (%s); the meaning of the fragment was confirmed by folding" % f.message[:120])
+    else:
+        if ok is False:
+            R.bad(Finding(P, rule, fi, what, detail))
+        else:
+            R.unknown(rule, what, fi.key if fi is not None else "", detail)
+        for f in T.findings:
+            R.bad(f)
